@@ -163,6 +163,17 @@ func (h *PortMappingHandler) CleanPortMapping(ports []k8s.Port) error {
 
 	natLines := append(natChains.Bytes(), natRules.Bytes()...)
 
+	// Make sure the chains exist before looking for the rules that jump to them: checking a rule whose target chain
+	// does not exist is an error, not "no such rule". The chains are gone if setting them up failed or if a full
+	// synchronisation has removed them in the meantime, cleaning up would then fail for ever.
+	ensureChains := append(append([]byte{}, natChains.Bytes()...), []byte("COMMIT\n")...)
+	if err := h.withRetry(func() error {
+		return h.RestoreAll(ensureChains, utiliptables.NoFlushTables, utiliptables.RestoreCounters)
+	}); err != nil {
+		err = fmt.Errorf("failed to execute iptables-restore for rules %s: %v", string(ensureChains), err)
+		glog.Warning(err)
+		return err
+	}
 	for _, rule := range kubeHostportsChainRules {
 		if err := h.withRetry(func() error {
 			return h.DeleteRule(utiliptables.TableNAT, kubeHostportsChain, rule...)
